@@ -84,6 +84,6 @@ func VH_C08_vmstack_tl(L int) {
 	}
 	var s VmStack
 	err := s.UnmarshalTL(bytes.NewReader(wire))
-	zzvrt.Cover("decoded", err == nil)
+	zzvrt.Cover("refused", err != nil)
 	zzvrt.ObserveBool("err", err != nil)
 }
